@@ -5,48 +5,85 @@ from props import stack_common as sc
 from props.c02 import geom_field, rand_coord, canon, small_coords
 
 
-def program(r, name, k, toks, ext, good_coords):
-    """a random program over one field type: lookups, writes, copies, assignments, IO, destruction, in-domain only"""
+def program(r, name, k, toks, ext, good_coords, conv_targets=()):
+    """a random program over one field type: lookups, writes, copies, moves, assignments (also INTO a moved-from field),
+    conversions into another storage order, IO, destruction -- in-domain only"""
     ops = [f'new 0 ' + ' '.join(map(str, toks))]
-    live = {0}
+    state = {0: 'live'}                      # live | moved (engaged, moved-from) ; absent = empty
+    other = {}                               # slots of the conversion target type
     writable = k.ref
     cs = good_coords
 
     def rc():
         return ' '.join(map(str, r.choice(cs)))
-    for step in range(r.range(8, 16)):
-        kind = r.choice(['at', 'at', 'atv', 'wr', 'copy', 'cassign', 'massign', 'move', 'dumpload', 'cfg', 'del', 'sto'])
-        s = r.choice(sorted(live))
+
+    def live():
+        return sorted(s for s, v in state.items() if v == 'live')
+
+    def free():
+        return [x for x in range(5) if x not in state]
+    for step in range(r.range(10, 18)):
+        kind = r.choice(['at', 'at', 'atv', 'wr', 'copy', 'cassign', 'massign', 'move', 'refill', 'dump', 'cfg', 'del', 'sto', 'conv'])
+        if not live():
+            break
+        s = r.choice(live())
         if kind in ('at', 'atv') and cs:
             ops.append(f'{kind if not name.startswith("array") else "at"} {s} {rc()}')
         elif kind == 'wr' and writable and cs:
+            c = rc()
             vals = ' '.join(str(sc.rand_scalar(r, k.tv, 'nice')) for _ in range(k.m))
-            ops.append(f'wr {s} {rc()} {vals}')
-            ops.append(f'at {s} {ops[-1].split(" ", 2)[2].rsplit(" ", k.m)[0]}')
-        elif kind == 'copy':
-            d = r.choice([x for x in range(4) if x not in live] or [None])
-            if d is not None:
-                ops.append(f'copy {d} {s}')
-                live.add(d)
-        elif kind == 'cassign' and len(live) >= 1:
-            d = r.choice(sorted(live))
+            ops.append(f'wr {s} {c} {vals}')
+            ops.append(f'at {s} {c}')
+        elif kind == 'copy' and free():
+            d = r.choice(free())
+            ops.append(f'copy {d} {s}')
+            state[d] = 'live'
+        elif kind == 'cassign':
+            d = r.choice(sorted(state))      # live or moved-from destination
             ops.append(f'cassign {d} {s}')
-        elif kind == 'dumpload':
-            ops.append(f'dump {s}')
-        elif kind == 'cfg':
-            ops.append(f'cfg {s}')
-        elif kind == 'sto':
-            ops.append(f'sto {s}')
-        elif kind == 'del' and len(live) > 1:
-            ops.append(f'del {s}')
-            live.discard(s)
-        # moves leave a moved-from field behind: only assign into it or destroy it afterwards
-        elif kind in ('move', 'massign') and len(live) >= 2 and kind == 'massign':
-            d = r.choice(sorted(live - {s}))
+            state[d] = 'live'
+        elif kind == 'massign' and len(live()) >= 2:
+            d = r.choice([x for x in live() if x != s])
             ops.append(f'massign {d} {s}')
-            ops.append(f'del {s}')
-            live.discard(s)
+            state[s] = 'moved'
+        elif kind == 'move' and free() and len(live()) >= 1:
+            d = r.choice(free())
+            ops.append(f'move {d} {s}')
+            state[d] = 'live'
+            state[s] = 'moved'
+        elif kind == 'refill':
+            # give a moved-from field a value again by copy assignment from a live one of the SAME shape
+            mv = [x for x, v in state.items() if v == 'moved']
+            if mv:
+                d = r.choice(mv)
+                ops.append(f'cassign {d} {s}')
+                state[d] = 'live'
+                if cs:
+                    ops.append(f'at {d} {rc()}')
+        elif kind in ('dump', 'cfg', 'sto'):
+            ops.append(f'{kind} {s}')
+        elif kind == 'del' and len(state) > 1:
+            d = r.choice(sorted(state))
+            ops.append(f'del {d}')
+            del state[d]
+        elif kind == 'conv' and conv_targets and cs:
+            t = r.choice(list(conv_targets))
+            d = r.range(0, 3)
+            ops.append(f'conv {t} {d} {s}')
+            ops.append(f'on {t} cfg {d}')
+            for c in cs[:6]:
+                ops.append(f'on {t} at {d} ' + ' '.join(map(str, c)))
+            ops.append(f'on {t} copy {(d + 1) % 5} {d}')
+            ops.append(f'on {t} sto {(d + 1) % 5}')
     return ops
+
+
+CONV_FAMILIES = [
+    ['strided.2.u64/array.1.f32', 'morton.2.u64.p/array.1.f32', 'morton.2.u64.b/array.1.f32', 'hilbert.u64/array.1.f32'],
+    ['strided.3.u64/array.2.f64', 'morton.3.u64.b/array.2.f64', 'morton.3.u64.p/array.2.f64'],
+    ['nearest.f32/strided.2.u64/array.3.f32', 'nearest.f32/morton.2.u64.b/array.3.f32', 'nearest.f32/hilbert.u64/array.3.f32'],
+    ['linear.f32/strided.2.u64/array.1.f32', 'linear.f32/morton.2.u64.p/array.1.f32'],
+]
 
 
 def run(replay=None):
@@ -66,15 +103,31 @@ def run(replay=None):
     chk.prove('Properties_C15.v')
     r = chk.rng
     names = [n for n in sc.catalogue(chk, extra_random=30 if thorough else 12) if 'probe' not in n]
-    runner = sc.StackRunner(chk, 'ub', names, configs=('dbg', 'rel', 'relplain'), shard_size=10)
+    convs = []
+    fam_of = {}
+    for fam in CONV_FAMILIES:
+        for a in fam:
+            fam_of[a] = [b for b in fam if b != a]
+            for b in fam:
+                if a != b:
+                    convs.append((a, b))
+            if a not in names:
+                names.append(a)
+    runner = sc.StackRunner(chk, 'ub', names, configs=('dbg', 'rel', 'relplain'), conversions=convs, shard_size=10)
     for s, log in runner.failed.items():
         chk.violation('stack does not compile: ' + '/'.join(l.split('.')[0] for l in s.split('/')), f'{s} is rejected by the compiler: {sc.first_error(log)}', {'stack': s, 'compiler_output': log[-3000:]})
     names = [n for n in names if n not in runner.failed]
     pre = []
     for n in names:
         k = stacks.kind_of(n)
-        for j in range(3 if thorough else 2):
-            toks, ext = geom_field(r, n) if j == 0 else (sc.rand_field(r, n, max_extent=3, data_mode='nice', cfg_mode='nice', ordered=True), [4] * 5)
+        for j in range((3 if thorough else 2) + (3 if n in fam_of else 0)):
+            if n in fam_of and j >= 2:
+                # elongated, non-cubic extents for the conversion programs
+                kk0 = stacks.kind_of(n)
+                sz = [r.choice([1, 2, 3, 4, 5, 8, 9]) for _ in range(kk0.n)]
+                toks, ext = sc.rand_field(r, n, sizes=sz, data_mode='nice'), sz
+            else:
+                toks, ext = geom_field(r, n) if j == 0 else (sc.rand_field(r, n, max_extent=3, data_mode='nice', cfg_mode='nice', ordered=True), [4] * 5)
             coords = [rand_coord(r, k, ext, q % 5) if j == 0 else small_coords(r, k) for q in range(10)]
             pre.append((n, toks, ext, coords))
     l1 = [f'{i} {n} new 0 ' + ' '.join(map(str, t)) + ''.join(' | at 0 ' + ' '.join(map(str, c)) for c in cs) for i, (n, t, e, cs) in enumerate(pre)]
@@ -88,7 +141,7 @@ def run(replay=None):
             continue
         good = [c for c, a in zip(cs, parts[1:]) if a.startswith('V')]
         k = stacks.kind_of(n)
-        progs.append((n, program(r, n, k, t, e, good)))
+        progs.append((n, program(r, n, k, t, e, good, conv_targets=[b for b in fam_of.get(n, []) if b not in runner.failed])))
     if replay:
         rp = json.load(open(replay)).get('replay', {})
         if rp.get('cases'):
@@ -116,7 +169,7 @@ def run(replay=None):
         id_ = l.split(' ', 1)[0]
         n, ops = progs[int(id_)]
         kk = stacks.kind_of(n)
-        chk.count_case((n, tuple(ops)), any(o.split()[0] in ('copy', 'cassign', 'massign', 'dump') for o in ops))
+        chk.count_case((n, tuple(ops)), any(o.split()[0] in ('copy', 'cassign', 'massign', 'move', 'conv', 'dump') for o in ops))
         m = canon(model.get(id_, ''), kk.tv, kk.tc)
         outs = {cfg: canon(impl[cfg].get(id_, 'MISSING'), kk.tv, kk.tc) for cfg in impl}
         for cfg, a in outs.items():
